@@ -495,6 +495,12 @@ func (P *Program) instrMods(ins ssa.Instruction, out map[string]bool, includeLoc
 			out[d] = true
 			out[v] = true
 		}
+	case *ssa.Next:
+		if r, ok := x.Iter.(*ssa.Range); ok && !x.IsString && includeLocal {
+			if _, isMap := r.X.Type().Underlying().(*types.Map); isMap {
+				out[RangeVarName(r)] = true
+			}
+		}
 	case ssa.CallInstruction:
 		tmp := &ssa.Function{}
 		_ = tmp
@@ -840,6 +846,21 @@ func (fr *frame) loopEnv(li *loopInfo, st *State, phiVals map[*ssa.Phi]TV) *Env 
 			for p, v := range phiVals {
 				if p.Comment == "rangeindex" {
 					return TV{T: fmt.Sprintf("(+ %s 1)", v.T), S: "Int"}, true
+				}
+			}
+		}
+		if name == "$visited" {
+			// the set of keys yielded so far by the map iteration of this loop
+			for b := range li.body {
+				for _, in := range b.Instrs {
+					if nx, ok := in.(*ssa.Next); ok && !nx.IsString {
+						if r, ok := nx.Iter.(*ssa.Range); ok {
+							if mt, isMap := r.X.Type().Underlying().(*types.Map); isMap {
+								rs := "(Array " + SortOf(mt.Key()) + " Bool)"
+								return TV{T: fr.s.getMap(st, RangeVarName(r), rs), S: rs}, true
+							}
+						}
+					}
 				}
 			}
 		}
